@@ -74,6 +74,7 @@ type histState struct {
 	tmpDir   string
 	curScriptBad map[string]bool
 	harnessErr   string
+	hasRegister  int // -1 unknown, 0 no, 1 the plan registers late probes
 	clock        int64           // simulated clock (fine-grain build, clock mode); 0 = real clock
 	clockReads   map[string]int  // clock reads of the code under test since the last lint call began, by site
 }
@@ -123,7 +124,7 @@ func writeMarker(tag string) {
 }
 
 func runHist(p *Plan, keepLog bool) *RunResult {
-	h := &histState{p: p, log: &EventLog{keep: keepLog}, ctr: counters{}, distinct: map[string]map[string]bool{}}
+	h := &histState{p: p, log: &EventLog{keep: keepLog}, ctr: counters{}, distinct: map[string]map[string]bool{}, hasRegister: -1}
 	h.log.Add("seed=%d engine=%s prop=%s tier=%s", p.Seed, p.Engine, p.Prop, p.Tier)
 	h.meta = readMetaTable()
 	h.libMajor = libraryMajor()
@@ -209,6 +210,55 @@ func runHist(p *Plan, keepLog bool) *RunResult {
 	return res
 }
 
+// doRegister registers a late probe lint in the global registry through the public API, in the
+// middle of the history. From then on the model's global registry (and its aliases) holds it;
+// registries filtered earlier do not.
+// selNow is the selection a lint record keeps: the model's map itself, or a copy of it when the
+// run registers lints later on (the global registry's selection then grows after the call).
+func (h *histState) selNow(m *ModelReg) map[string]bool {
+	if h.hasRegister < 0 {
+		h.hasRegister = 0
+		for _, op := range h.p.Ops {
+			if op.K == "register" {
+				h.hasRegister = 1
+			}
+		}
+	}
+	if h.hasRegister == 0 {
+		return m.Sel
+	}
+	c := make(map[string]bool, len(m.Sel))
+	for k, v := range m.Sel {
+		c[k] = v
+	}
+	return c
+}
+
+func (h *histState) doRegister(i int, op *Op) {
+	d, done, pan := registerLate(op.R)
+	if pan != "" {
+		h.violate(Violation{Property: "C08", Class: "register_panic", Lint: d.Name, Op: i, Detail: "registering a new, uniquely named lint through the public API panicked: " + clip(pan, 200)})
+		h.aborted = true
+		return
+	}
+	if !done {
+		h.log.Add("op %d register %s: already registered in this process", i, d.Name)
+		return
+	}
+	h.meta.addLate(d)
+	h.mregs[0].Sel[d.Name] = true
+	h.ctr.inc("late_registration/" + kindNames[d.Kind])
+	// the listing line of the new lint, as the global registry prints it
+	var sb strings.Builder
+	lint.GlobalRegistry().WriteJSON(&sb)
+	for _, ln := range strings.Split(strings.TrimSuffix(sb.String(), "\n"), "\n") {
+		if strings.Contains(ln, `"name":"`+d.Name+`"`) {
+			h.jsonLine[d.Name] = ln
+		}
+	}
+	h.log.Add("op %d register %s kind=%s source=%s configurable=%v", i, d.Name, kindNames[d.Kind], d.Source, d.Configurable)
+}
+
 func (h *histState) setClock(t int64) {
 	if !fineGrainBuild {
 		h.aborted = true
@@ -274,6 +324,8 @@ func (h *histState) step(i int, op *Op) {
 		h.doDefaultCfg(i, op)
 	case "fresh":
 		h.doFresh(i, op)
+	case "register":
+		h.doRegister(i, op)
 	case "clock":
 		h.setClock(op.T)
 		h.ctr.inc("fault/clock_jump")
@@ -512,7 +564,7 @@ func (h *histState) doLint(i int, op *Op) {
 	o.linted = true
 	h.ctr.inc("lint_path_" + path)
 	h.ctr.inc("lint_kind_" + kindNames[o.spec.Kind])
-	rec := &lintRecord{op: i, obj: op.Obj, reg: op.Reg, cfg: m.Cfg, path: path, fresh: op.Fresh, canon: cs, partial: partial, sel: m.Sel, clock: h.clock}
+	rec := &lintRecord{op: i, obj: op.Obj, reg: op.Reg, cfg: m.Cfg, path: path, fresh: op.Fresh, canon: cs, partial: partial, sel: h.selNow(m), clock: h.clock}
 	h.recs = append(h.recs, rec)
 	h.log.Add("op %d lint obj=%d reg=%d path=%s fresh=%v cfg=%d -> %s", i, op.Obj, op.Reg, path, op.Fresh, m.Cfg, cs.hash())
 	h.mark("history_prefix", h.histHash)
@@ -583,7 +635,7 @@ func (h *histState) doRepeat(i int, op *Op) {
 	h.checks += op.R
 	h.ctr.add("repeat_calls", op.R)
 	if first != nil {
-		h.recs = append(h.recs, &lintRecord{op: i, obj: op.Obj, reg: op.Reg, cfg: m.Cfg, path: "ex", canon: first, sel: m.Sel, clock: clock0})
+		h.recs = append(h.recs, &lintRecord{op: i, obj: op.Obj, reg: op.Reg, cfg: m.Cfg, path: "ex", canon: first, sel: h.selNow(m), clock: clock0})
 		h.log.Add("op %d repeat obj=%d reg=%d R=%d -> %s unstable=%d", i, op.Obj, op.Reg, op.R, first.hash(), len(bad))
 	}
 	h.checkReadOnly(i, o)
